@@ -75,13 +75,28 @@ def run(ctx):
         ctx.inst("R11.1", "funding-time-guard", bad is None and bool(a.ok_paths()), a.fn.where(),
                  "%d success paths; %s" % (len(a.ok_paths()), "each established now >= State.next_funding_time" if bad is None else "a success path lacks the schedule guard"))
         # ---- R11.2
-        twap_v = hole("twap_vamm", lambda v: tag(v) in ("unwrap", "call") and "twap" in sym.show(v, 2).lower() and "Querier" not in sym.show(v, 2))
+        def own_twap(v):
+            """the vAMM's own time-weighted price over config.spot_price_twap_interval: a (possibly wrapped) call of a
+            function that takes the block Env and a u64 interval, with that interval argument"""
+            vi = ix.inline(v)
+            while tag(vi) in ("unwrap", "ok"):
+                vi = ix.inline(kids(vi)[0])
+            if tag(vi) != "call" or "Querier" in sym.show(vi, 2):
+                return False
+            t = ix.call_target(vi)
+            if t is None:
+                return False
+            iv = [ix.inline(k) for k, i in zip(kids(vi), range(t.arg_count)) if t.locals[i + 1]["ty"] == "u64"]
+            has_env = any(t.locals[i + 1]["ty"].endswith("cosmwasm_std::Env") for i in range(t.arg_count))
+            return has_env and len(iv) == 1 and vcfg(iv[0], "spot_price_twap_interval")
+        twap_v = hole("twap_vamm", own_twap)
         def oracle_twap(v):
             qq = ix.parse_query(v)
             if not qq or qq.get("msg") is None:
                 return False
             mv = ix.msg_variant(qq["msg"])
-            return bool(mv and mv[1] == "GetTwapPrice" and vcfg(qq["addr"], "pricefeed"))
+            return bool(mv and mv[1] == "GetTwapPrice" and vcfg(qq["addr"], "pricefeed") and
+                        mv[2].get("interval") is not None and vcfg(mv[2]["interval"], "spot_price_twap_interval"))
         twap_o = hole("twap_oracle", oracle_twap)
         period = hole("period", lambda v: vcfg(v, "funding_period"))
         PF = ("idiv", ("imul", ("isub", ("pos", twap_v), ("pos", twap_o)), ("pos", period)), ("pos", ("int", 86400)))
